@@ -5,6 +5,19 @@ import json, subprocess
 CLAIMED = {
  # id: (technique, level text, level note, design ref)
 
+
+ "C01": ("property-based testing / fuzzing: class-biased token soup and damaged programs under catch_unwind in-process, depth ladder per recursive construct in child processes under a watchdog, both build profiles (libFuzzer byte target planned in thorough tier)",
+         "Exploration: hundreds of thousands of generated strings (every adjacency of the tokenizer's character classes, multi-byte scalars, unterminated constructs) go through parse/execute/expr/describe; every recursive construct is nested 1..48, 64, 100, 300, 1000 (must never abort), 3000 and 10000 deep (known stack findings by construct) in dev and release builds. Held on everything explored apart from the listed known findings.",
+         "Termination is decided by watchdog only (30 s vs. milliseconds, reproduced three times); absence of panics is not proven.",
+         "DESIGN.md §4 C01"),
+ "C05": ("property-based testing with an exhaustive component: all token sequences up to length 5 (quick) / 6 (thorough) over a 22-symbol alphabet, plus generated corruptions of valid programs, against a lenient nondeterministic reference recogniser (one-directional oracle)",
+         "Exploration, exhaustive over the stated finite space: every sequence of <= 5 (6) tokens over the class alphabet and ~300k corruptions are parsed; whenever no lenient reading of the documented grammar exists the engine must return Err.",
+         "Trusts the recogniser as the lenient reading of the grammar (it can only err toward accepting, which asserts nothing). Acceptance of valid programs is C02/C11/C12's job.",
+         "DESIGN.md §4 C05"),
+ "C10": ("property-based testing: span invariants on every generated string plus differential comparison with a reference tokenizer written from the documented rules; by-construction token streams; extended operator tables and tokenize/register/tokenize histories in fresh child processes",
+         "Exploration: ~450k generated inputs (class soup, structured token lists with empty and non-empty separators) and ~4k operator-table configurations are tokenized through the hook; tiling, char-boundary, exact-text invariants and documented classification are checked on each.",
+         "Needs the cfg-guarded tokenizer hook; symbolic operator sets are prefix-closed; numbers beyond 28 digits are not compared.",
+         "DESIGN.md §4 C10"),
  "C02": ("property-based testing: generated operator sequences against an independent precedence-climbing reference parser, plus model-free fully-parenthesised metamorphic check; exhaustive operator pairs/triples",
          "Exploration: every built-in infix operator pair (exhaustive, with `not` forms and conditional tails), representative triples, and hundreds of thousands of random flat programs are parsed and compared structurally with a reference parser written from the documented table; held on everything generated.",
          "Trusts the reference parser as the reading of the documented table (itself cross-checked per case by the parenthesised rendering, which needs no precedence knowledge).",
